@@ -113,6 +113,10 @@ RPaints(d, nz) ==
                              code |-> ColIdx(d.fill), tl |-> PaintTab[d.fill].a # 255]>> ELSE <<>>)
     \o (IF HasStroke(d) THEN <<[k |-> "stroke", d |-> d, es |-> StrokeEdges(d), reach |-> StrokeReach(d), hw |-> HalfW(d),
                                code |-> ColIdx(d.stroke), tl |-> PaintTab[d.stroke].a # 255]>> ELSE <<>>)
+\* painter's order of a canvas: ascending z-index, then drawing order (Canvas.RenderViewTo; the rule of spec/Context.tla)
+RECURSIVE ByZ(_, _)
+ByZ(pr, zs) == IF zs = {} THEN <<>> ELSE LET zz == SetMin(zs) IN SelectSeq(pr, LAMBDA d : d.z = zz) \o ByZ(pr, zs \ {zz})
+Ordered(pr) == ByZ(pr, {pr[i].z : i \in 1..Len(pr)})
 RECURSIVE AllPaints(_, _, _)
 AllPaints(pr, j, nz) == IF j > Len(pr) THEN <<>> ELSE RPaints(pr[j], nz) \o AllPaints(pr, j + 1, nz)
 ClassOf(p, s) == CASE p.k = "img" -> ImgClass(p.d, s)
@@ -145,12 +149,12 @@ CrossLeft(pr) == \E j \in 1..Len(pr) : ~IsEll(pr[j]) /\ LET es == FillEdges(pr[j
 CrossTop(pr) == \E j \in 1..Len(pr) : ~IsEll(pr[j]) /\ LET es == FillEdges(pr[j]) IN \E i \in 1..Len(es) : es[i].y1 + Reach(pr[j]) > Hpx * PX
 
 \* ---- generator ---------------------------------------------------------------------------------------------
-FScenario == LET ps == AllPaints(gprog, 1, FALSE) \o <<>> IN
+FScenario == LET ps == AllPaints(Ordered(gprog), 1, FALSE) \o <<>> IN
              [prog |-> gprog, res |-> FRes, wpx |-> Wpx, hpx |-> Hpx,
               paints |-> IF FMode = "prog" THEN [i \in 1..Len(ExpQueue(gprog)) |-> Brief(ExpQueue(gprog)[i])] ELSE <<>>,
               frame |-> Rows(FrameOf(ps)),
               feat |-> [openfill |-> OpenFill(gprog), left |-> CrossLeft(gprog), top |-> CrossTop(gprog), selfx |-> StrokeSelfX(gprog), posnegopen |-> PosNegOpen(gprog), grad |-> \E j \in 1..Len(gprog) : gprog[j].fill \in Grads],
-              nz |-> IF RuleSensitive(gprog) THEN Rows(FrameOf(AllPaints(gprog, 1, TRUE) \o <<>>)) ELSE <<>>]
+              nz |-> IF RuleSensitive(gprog) THEN Rows(FrameOf(AllPaints(Ordered(gprog), 1, TRUE) \o <<>>)) ELSE <<>>]
 FEmit == ~gdone /\ gdone' = TRUE /\ UNCHANGED <<gprog, vars, mprog, mlang, mtrace>> /\ PrintT("@@" \o ToJson(FScenario))
 FSpec == GInit /\ [][FEmit]_mvars
 
